@@ -286,6 +286,7 @@ Verdict(S, ev) ==
       [] ev.e = "Utc"       -> WrWhy(UtcAccept(S, ev), ev)
       [] ev.e = "UserData"  -> WrWhy(ev.st \in {1, 2, 3}, ev)
       [] ev.e = "WClose"    -> IF ev.rc = 0 THEN "" ELSE "close failed"
+      [] ev.e = "Copy"      -> IF S.mode = "closed" /\ ev.rc # 0 THEN "copy of a properly closed file failed" ELSE ""
       [] ev.e = "ROpen"     -> IF S.mode # "closed" THEN ""
                                ELSE IF ev.rc # 0 THEN "a properly closed file could not be opened"
                                ELSE IF ev.wcount # 0 \/ ev.modified THEN "opening a properly closed file modified it"
